@@ -201,7 +201,8 @@ def run_check(chk, repo, tier):
         for p in returns(paths):
             calls = [e for e in p.calls('fourier.dft2')]
             if len(calls) != 1:
-                raise AnalysisError('fourier.idft2 does not delegate to fourier.dft2 exactly once')
+                _idft2_by_value(chk, repo, fid, unitary, ulabel, a0, a1)
+                break
             passed = calls[0].bound.get('unitary')
             if passed not in (TRUE, FALSE):
                 raise AnalysisError(f'idft2 passes a non-constant unitary flag {fmt(passed)} under config {ulabel}')
@@ -236,6 +237,31 @@ def run_check(chk, repo, tier):
     common.shape_scan(chk, repo, 'C01-s', ['fourier'])
     # ---------------------------------------------------------------- C01-j
     common.cache_untouched(chk, repo, 'C01-j', modules=['fourier'])
+
+
+def _idft2_by_value(chk, repo, fid, unitary, ulabel, a0, a1):
+    """idft2 does not go through the public dft2 (exactly once): evaluate it with dft2 and its helpers inlined and read the
+    gain off the value: result = post * conj(g * E1.conj(F).E2)"""
+    f, paths, _ = analyse(repo, fid, config={'unitary': unitary}, inline=['fourier.dft2'])
+    Fs = nf.attr(S('F'), 'shape')
+    Ns = [nf.attr(S('F'), 'size'), nf.index(Fs, C(0)) * nf.index(Fs, C(1))]
+    want = [(nf_abs(a0 * a1)).pow(Fraction(1, 2))] if unitary is TRUE else [n.pow(-1) for n in Ns]
+    cF = nf.app('conj', S('F')).single_atom()
+    for p in returns(paths):
+        ret = p.ret
+        conj_atoms = [x for x in ret.atoms(deep=False) if is_app(x, 'conj')] if isinstance(ret, Poly) else []
+        verdict, det = None, f'result is not post*conj(g*E1.conj(F).E2): {fmt(ret)[:160]}'
+        if isinstance(ret, Poly) and len(ret.terms) == 1 and len(conj_atoms) == 1 and isinstance(conj_atoms[0][2][0], Poly):
+            inner = conj_atoms[0][2][0]
+            dots = [x for x in inner.atoms(deep=False) if is_app(x, ('dot', 'matmul', 'einsum'))]
+            if len(inner.terms) == 1 and len(dots) == 1 and cF in nf.value_atoms(Poly.atom(dots[0])):
+                post = ret / Poly.atom(conj_atoms[0])
+                g = inner / Poly.atom(dots[0])
+                real = not any(x == ('I',) or x[0] == 'I' for x in nf.value_atoms(g))
+                total = post * g
+                verdict = (total in want) if real else None
+                det = f'gain inside the conjugate {fmt(g)} times post-factor {fmt(post)} = {fmt(total)}; expected {fmt(want[0])}'
+        chk.ob('C01-h', 'N-gain', 'fourier.idft2', f'inverse gain [{ulabel}, {conds_str(p)[:60]}]', verdict, det, f.loc(p.node))
 
 
 def run(chk, repo, tier):   # noqa: F811  (entry point; shadows rules.run deliberately)
